@@ -62,6 +62,10 @@ def decode_fmt(hexs):
 _HANDLED = set()   # blocks of main whose unwrap_or_else handler never returns: the call yields the success payload
 
 
+def _residual(e):
+    return e[0] == "call" and e[1] is not None and "from_residual" in e[1].get("path", "")
+
+
 def peel(e):
     """strip_payload + anyhow's context()/with_context() (payload-transparent) + unwrap_or_else(never-returning handler)."""
     while True:
@@ -144,7 +148,23 @@ def run(ctx):
         ctx.check(bi not in reach_from_print, "K1.print-last", "no fallible step after the print (%s)" % short(what),
                   "the fallible step %s can run after the result line has been printed" % short(what), where=m.where(bi), fn=m.key, nontrivial=True)
     for bi, what, sw in branches:
-        ctx.need(sw is not None, "`?` at bb%d has no switch" % bi)
+        if sw is None:
+            # helper-inlined view: the outcome of this `?` is already known on this path (the other outcome is a path of its own)
+            oc = m.threaded_outcome(bi)
+            ctx.need(oc is not None and oc[0] in ("Continue", "Break"), "`?` at bb%d has no switch" % bi)
+            if oc[0] == "Continue":
+                ctx.check(bi not in reach_from_print or bi == pbi, "K1.print-last", "no fallible step after the print (%s)" % short(what),
+                          "the fallible step %s can run after the result line has been printed: a failure would follow a printed result" % short(what), where=m.where(bi), fn=m.key, nontrivial=True)
+            else:
+                fail_blocks = m.reachable(oc[1])
+                ctx.check(pbi not in fail_blocks, "K4.fail-no-print", "failure of %s (bb%d) prints no result line" % (short(what), bi),
+                          "after %s fails the result line can still be printed" % short(what), where=m.where(bi), fn=m.key, nontrivial=True)
+                with m.restricted(fail_blocks):
+                    r = m.trace(0)
+                good = r[0] == "call" and r[1] and "from_residual" in r[1]["path"]
+                ctx.check(good, "K4.fail-propagates", "failure of %s returns the error (`?`)" % short(what),
+                          "on failure of %s main's result is %s instead of the propagated error" % (short(what), show_expr(r)), where=m.where(bi), fn=m.key, nontrivial=True)
+            continue
         cont = switch_edges_for_variant(m, sw, "Continue")
         brk = switch_edges_for_variant(m, sw, "Break")
         ctx.need(cont and brk, "`?` switch without Continue/Break edges")
@@ -223,69 +243,146 @@ def run(ctx):
     ctx.check(is_logic and argname is not None, "K2.rule-source", "the rule text is a command-line argument (%r)" % argname, "rule text derives from %s" % show_expr(rule_text), where=m.where(apply_bi), fn=m.key)
 
     # ---------------- K3 data source
+    # Stated on sources and cut sets of the control-flow graph, not on the shape of the selection:
+    #   * every definition the data text can come from is either the data argument itself (made into a String) or a
+    #     buffer filled by reading stdin to the end;
+    #   * every path to the stdin read takes an edge that says "the data argument is absent" or "… equals \"-\"";
+    #   * every path to the use of the argument takes the edge that says "… does not equal \"-\"";
+    #   * a default substituted for an absent argument is the constant "-" (so that absence ends on the stdin side).
     dt = strip_refs(d0[2][0])
     while dt[0] == "call" and dt[1] and dt[1]["path"] in ("<std::string::String as std::ops::Deref>::deref", "std::string::String::as_str"):
         dt = strip_refs(dt[2][0])
-    ctx.need(dt[0] in ("phi", "partial"), "the data text is not a two-way choice (argument / stdin): %s" % show_expr(dt))
-    data_local = dt[1]
-    defs = m.defs()[data_local]
-    # the selector
-    sel = None
+
+    def arg_source(e, depth=0):
+        """(argument name, default constant or None) when e is the command-line argument's text."""
+        e = strip_refs(e)
+        if depth > 8:
+            return None
+        if e[0] == "field" and e[1][0] == "downcast" and e[1][2] == "Some":
+            return arg_source(e[1][1], depth + 1)
+        if e[0] == "agg" and e[1].get("variant") == "Some" and e[2]:
+            return arg_source(e[2][0], depth + 1)
+        if e[0] == "call" and e[1]:
+            pth = e[1]["path"]
+            if pth.endswith("::value_of"):
+                n = strip_refs(e[2][1])
+                return (const_value(n[1]), None) if n[0] == "const" else None
+            if pth == "std::option::Option::<T>::unwrap_or":
+                inner = arg_source(e[2][0], depth + 1)
+                dv = strip_refs(e[2][1])
+                if inner and dv[0] == "const":
+                    return (inner[0], const_value(dv[1]))
+                return (inner[0], "<computed>") if inner else None
+            if pth in ("std::option::Option::<T>::unwrap_or_default", "std::option::Option::<T>::unwrap_or_else"):
+                inner = arg_source(e[2][0], depth + 1)
+                return (inner[0], "<computed>") if inner else None
+            if pth in ("std::option::Option::<T>::unwrap", "std::option::Option::<T>::expect", "std::option::Option::<&T>::copied", "std::option::Option::<&T>::cloned"):
+                return arg_source(e[2][0], depth + 1)
+        return None
+
+    OWNED = re.compile(r"::to_string$|::to_owned$|From<&str>|::into$|String::from$")
+
+    def leaves(e, depth=0, out=None):
+        out = [] if out is None else out
+        e = peel(e)
+        if depth < 8 and e[0] in ("phi", "partial"):
+            for x in e[2]:
+                leaves(x, depth + 1, out)
+        else:
+            out.append(e)
+        return out
+    lvs = leaves(dt)
+    stdin_reads = [(bi, t) for bi, t in m.calls() if re.search(r"as std::io::Read>::read_to_string$|^std::io::Read::read_to_string$|^std::io::read_to_string$", callee_path(t) or "")]
+    other_reads = [(bi, callee_path(t)) for bi, t in m.calls() if re.search(r"std::io::(Read|BufRead)>?::(read|read_line|read_exact|read_to_end|lines|bytes)\b", callee_path(t) or "") or "from_reader" in (callee_path(t) or "")]
+    ctx.check(len(stdin_reads) == 1 and not other_reads, "K3.read-all", "stdin is read to the end, once", "stdin reads: %s; other readers: %s" % ([m.where(bi) for bi, _ in stdin_reads], other_reads), where=m.where(), fn=m.key, nontrivial=True)
+    if len(stdin_reads) != 1:
+        return
+    rbi, rt = stdin_reads[0]
+    recv = strip_refs(m.trace(rt["args"][0]))
+    from_stdin = expr_mentions(recv, lambda x: x[0] == "call" and x[1] and x[1]["path"] == "std::io::stdin")
+    ctx.check(from_stdin, "K3.reads-stdin", "the reader is std::io::stdin()", "read_to_string is applied to %s" % show_expr(recv), where=m.where(rbi), fn=m.key)
+    buf_call = None      # block of the String::new() whose result the read fills (method form)
+    if len(rt["args"]) >= 2:
+        bx = strip_refs(m.trace(rt["args"][1]))
+        for x in ([bx] if bx[0] not in ("phi", "partial") else bx[2]):
+            x = strip_refs(x)
+            if x[0] == "call" and x[1] and re.search(r"String::(new|with_capacity)$", x[1]["path"]):
+                buf_call = x[3]
+    arg_leaves, stdin_leaves, other = [], [], []
+    for lf in lvs:
+        if lf[0] == "call" and lf[1] and OWNED.search(lf[1]["path"]) and lf[2] and arg_source(lf[2][0]):
+            arg_leaves.append((lf, arg_source(lf[2][0])))
+        elif lf[0] == "call" and lf[3] == rbi and len(rt["args"]) < 2:
+            stdin_leaves.append(lf)
+        elif lf[0] == "call" and lf[1] and re.search(r"String::(new|with_capacity)$", lf[1]["path"]) and lf[3] == buf_call:
+            stdin_leaves.append(lf)
+        elif _residual(lf):
+            continue
+        else:
+            other.append(lf)
+    ctx.check(not other and arg_leaves and stdin_leaves, "K3.data-source", "the data text is the data argument itself or what was read from stdin — nothing else",
+              "the data text can be %s (argument forms: %d, stdin forms: %d)" % ([show_expr(x)[:100] for x in other], len(arg_leaves), len(stdin_leaves)), where=m.where(apply_bi), fn=m.key, nontrivial=True,
+              sample={"argument_forms": len(arg_leaves), "stdin_forms": len(stdin_leaves)})
+    if other or not arg_leaves or not stdin_leaves:
+        return
+    dnames = {a[1][0] for a in arg_leaves}
+    ctx.check(len(dnames) == 1 and argname not in dnames, "K3.data-argument", "the data argument is one command-line argument, not the rule's (%s)" % sorted(dnames), "data argument names: %s (rule: %r)" % (sorted(dnames), argname), where=m.where(), fn=m.key)
+    for lf, (nm, dflt) in arg_leaves:
+        ctx.check(dflt in (None, "-"), "K3.default-dash", "an absent data argument is treated as \"-\" (stdin)", "an absent data argument is replaced by %r instead of reading stdin" % (dflt,), where=m.where(lf[3]), fn=m.key, nontrivial=True)
+    # decision edges about the data argument
+    stdin_edges, arg_edges = set(), set()
     for sb in m.reachable():
         tt = m.blocks[sb]["term"]
         if tt["k"] != "SwitchInt":
             continue
-        e = strip_refs(m.trace(tt["discr"]))
+        e0_ = m.trace(tt["discr"])
+        e = strip_refs(e0_)
+        neg = False
+        while e[0] == "unop" and e[1] == "Not":
+            neg, e = not neg, strip_refs(e[2])
         if e[0] == "call" and e[1] and re.search(r"PartialEq.*::(eq|ne)$", e[1]["path"]):
             l, r_ = strip_refs(e[2][0]), strip_refs(e[2][1])
-            for p, q in ((l, r_), (r_, l)):
-                if q[0] == "const" and const_value(q[1]) == "-":
-                    sel = (sb, p, e[1]["path"].endswith("::ne"))
-    ctx.check(sel is not None, "K3.selector", "main branches on data_arg == \"-\"", "no comparison of the data argument with the constant \"-\" found", where=m.where(), fn=m.key, nontrivial=True)
-    if sel is None:
-        return
-    sb, darg, is_ne = sel
-    d = strip_refs(darg)
-    good = d[0] == "call" and d[1] and d[1]["path"] == "std::option::Option::<T>::unwrap_or"
-    if good:
-        src_opt = strip_refs(d[2][0])
-        dflt = strip_refs(d[2][1])
-        good = src_opt[0] == "call" and src_opt[1]["path"].endswith("::value_of") and dflt[0] == "const" and const_value(dflt[1]) == "-"
-        dname = const_value(strip_refs(src_opt[2][1])[1]) if good else None
-        good = good and dname is not None and dname != argname
-    ctx.check(bool(good), "K3.default-dash", "an absent data argument is treated as \"-\"", "the data argument is %s" % show_expr(d), where=m.where(sb), fn=m.key, nontrivial=True)
-    edge_arg = bool_edge(m, sb, is_ne)        # data_arg != "-"  → use the argument
-    edge_stdin = bool_edge(m, sb, not is_ne)  # data_arg == "-"  → stdin
-    stdin_reads = [(bi, t) for bi, t in m.calls() if re.search(r"as std::io::Read>::read_to_string$|^std::io::Read::read_to_string$|^std::io::read_to_string$", callee_path(t) or "")]
-    other_reads = [(bi, callee_path(t)) for bi, t in m.calls() if re.search(r"std::io::(Read|BufRead)>?::(read|read_line|read_exact|read_to_end|lines|bytes)\b", callee_path(t) or "") or "from_reader" in (callee_path(t) or "")]
-    ctx.check(len(stdin_reads) == 1 and not other_reads, "K3.read-all", "stdin is read to the end, once", "stdin reads: %s; other readers: %s" % ([m.where(bi) for bi, _ in stdin_reads], other_reads), where=m.where(sb), fn=m.key, nontrivial=True)
-    if len(stdin_reads) == 1:
-        rbi, rt = stdin_reads[0]
-        ctx.check(edge_dominates(m, sb, edge_stdin, rbi), "K3.stdin-only-on-dash", "stdin is read only when the data argument is \"-\" or absent", "the stdin read is not confined to the \"-\" edge", where=m.where(rbi), fn=m.key, nontrivial=True)
-        recv = strip_refs(m.trace(rt["args"][0]))
-        from_stdin = expr_mentions(recv, lambda x: x[0] == "call" and x[1] and x[1]["path"] == "std::io::stdin")
-        ctx.check(from_stdin, "K3.reads-stdin", "the reader is std::io::stdin()", "read_to_string is applied to %s" % show_expr(recv), where=m.where(rbi), fn=m.key)
-        if len(rt["args"]) >= 2:
-            buf = m.trace(rt["args"][1])
-            buf_is_data = expr_mentions(buf, lambda x: x[0] in ("phi", "partial") and x[1] == data_local)
+            for pp, q in ((l, r_), (r_, l)):
+                src_ = arg_source(pp)
+                if q[0] == "const" and const_value(q[1]) == "-" and src_ and src_[0] in dnames:
+                    is_eq = e[1]["path"].endswith("::eq") != neg
+                    stdin_edges.add((sb, bool_edge(m, sb, is_eq)))
+                    arg_edges.add((sb, bool_edge(m, sb, not is_eq)))
+        elif e0_[0] == "discr":
+            x = strip_refs(e0_[1])
+            src_ = arg_source(x)
+            if src_ and src_[0] in dnames and src_[1] is None and x[0] == "call" and x[1]["path"].endswith("::value_of"):
+                r = switch_edges_for_variant(m, sb, "None")
+                if r:
+                    stdin_edges.add((sb, r[0]))
         else:
-            # free function std::io::read_to_string(reader) -> Result<String>: its success payload is assigned to the data text
-            buf = ("call", None, [], rbi)
-            buf_is_data = False
-            for dd in defs:
-                ex_ = strip_payload(m._trace_def(dd, 0, frozenset()))
-                if ex_[0] == "call" and ex_[3] == rbi:
-                    buf_is_data = True
-        ctx.check(buf_is_data, "K3.stdin-into-data", "the stdin text becomes the data text", "read_to_string fills %s" % show_expr(buf), where=m.where(rbi), fn=m.key)
-    # the argument form: data = data_arg.to_string() on the other edge
-    arg_def = None
-    for dd in defs:
-        if dd[0] == "stmt" and edge_dominates(m, sb, edge_arg, dd[1]):
-            ex_ = strip_refs(m._trace_def(dd, 0, frozenset()))
-            if ex_[0] == "call" and ex_[1] and ex_[1]["path"].endswith("::to_string") or ex_[0] == "call" and ex_[1] and ex_[1]["path"].endswith("::to_owned") or ex_[0] == "call" and ex_[1] and "From<&str>" in ex_[1]["path"]:
-                if strip_refs(ex_[2][0]) == d:
-                    arg_def = dd
-    ctx.check(arg_def is not None, "K3.argument-verbatim", "otherwise the data text is the second argument verbatim", "no definition of the data text as the data argument itself on the non-\"-\" edge", where=m.where(sb), fn=m.key, nontrivial=True)
+            for (sw_, t_some, t_none) in []:
+                pass
+    from .core import option_guards
+    for (sw_, t_some, t_none) in option_guards(m, lambda x: x[0] == "call" and x[1] is not None and x[1]["path"].endswith("::value_of") and (arg_source(x) or (None,))[0] in dnames):
+        stdin_edges.add((sw_, t_none))
+    ctx.check(bool(stdin_edges), "K3.selector", "main decides on the data argument being absent or \"-\"", "no test of the data argument against the constant \"-\" (or for absence) found", where=m.where(), fn=m.key, nontrivial=True)
+    if not stdin_edges:
+        return
+
+    def reachable_without(edges, target):
+        seen, st = set(), [0]
+        while st:
+            x = st.pop()
+            if x in seen:
+                continue
+            seen.add(x)
+            for y in m.succs(x):
+                if (x, y) in edges:
+                    continue
+                st.append(y)
+        return target in seen
+    ctx.check(not reachable_without(stdin_edges, rbi), "K3.stdin-only-on-dash", "stdin is read only when the data argument is \"-\" or absent",
+              "stdin can be read on a path that never established that the data argument is absent or \"-\"", where=m.where(rbi), fn=m.key, nontrivial=True)
+    for lf, _src in arg_leaves:
+        ctx.check(bool(arg_edges) and not reachable_without(arg_edges, lf[3]), "K3.argument-verbatim", "the data argument is used as the data text only when it is not \"-\"",
+                  "the data argument can become the data text without having been compared with \"-\"", where=m.where(lf[3]), fn=m.key, nontrivial=True)
+    ctx.ok("K3.stdin-into-data", "the stdin text becomes the data text", nontrivial=True)
 
     # ---------------- K1 (library side): what else can reach stdout before the result line
     lf = ctx.facts("cmdline", "jsonlogic_rs")
